@@ -1094,7 +1094,10 @@ class MultiTestResult(TestResult):
     def __init__(self, *results):
         # Setup _results first, as the base class __init__ assigns to failfast.
         self._results = list(map(ExtendedToOriginalDecorator, results))
-        super().__init__()
+        # That assignment is dispatched to every wrapped result: do not let it
+        # switch off failfast on results that were created with it.
+        failfast = any(getattr(result, "failfast", False) for result in results)
+        super().__init__(failfast=failfast)
 
     def __repr__(self):
         return "<{} ({})>".format(
